@@ -38,6 +38,13 @@ class PyAlg (V : Type) where
   mul : V → V → Except Err V
   div : V → V → Except Err V
   pow : V → V → Except Err V
+  /-- `a % b` and `a // b` (floor semantics) -/
+  mod : V → V → Except Err V
+  floordiv : V → V → Except Err V
+  /-- `range(n)` -/
+  range : V → Except Err (List V)
+  /-- an int used as an index / key component -/
+  toNat : V → Except Err Nat
   lt : V → V → Except Err Bool
   le : V → V → Except Err Bool
   len : V → Except Err V
